@@ -299,13 +299,11 @@ def rootAddr (a : Addr) : Addr :=
 def clearSubsRootItems (t : Table) (b : SId) : Table :=
   deleteAll t ((t.live.filter (·.base = b)).map (fun e => rootAddr e.addr))
 
-/-- `DynamicBase.on_namespace_change()` of the static space `b`: its own ItemSpaces are
-deleted; of the dynamic spaces built from it elsewhere only the ItemSpaces *below their
-root* are (`r.del_all_itemspaces()`), the dynamic spaces themselves stay -/
+/-- `DynamicBase.on_namespace_change()` of the static space `b` (as repaired by 482219e): its own
+ItemSpaces are deleted (`ItemSpaceParent.on_namespace_change`), then `clear_subs_rootitems()`:
+the ItemSpaces in which dynamic spaces built from `b` elsewhere live are deleted too -/
 def nsChange (t : Table) (b : SId) : Table :=
-  let t1 := clearItems t ⟨b, []⟩
-  deleteAll t1 (((t1.live.filter (·.base = b)).map (fun e => rootAddr e.addr)).flatMap
-    (fun r => (itemsOf t1 r).map (·.addr)))
+  clearSubsRootItems (clearItems t ⟨b, []⟩) b
 
 /-- the own references of `b` changed (`_dynbase_refs` of every dynamic space built from `b`
 observes them): the namespace of each of those dynamic spaces changes, which deletes their
@@ -314,17 +312,12 @@ def dynRefsChange (t : Table) (b : SId) : Table :=
   deleteAll t ((t.live.filter (·.base = b)).flatMap (fun e => (itemsOf t e.addr).map (·.addr)))
 
 inductive EditKind
-  | newCells | setFormula | renameCells        -- call clear_subs_rootitems
-  | delCells | newChild | delChild             -- reach the base through its namespace only
+  | newCells | setFormula | renameCells        -- call clear_subs_rootitems themselves
+  | delCells | newChild | delChild             -- reach the base through its namespace
   | newRef | delRef | changeRef                -- own references
   | setParamFormula                            -- `set_formula` / `del_formula` of the space
   | modelRef                                   -- a model-level reference: every namespace
 deriving DecidableEq, Repr
-
-/-- does the code call `clear_subs_rootitems` for this kind of edit -/
-def EditKind.propagated : EditKind → Bool
-  | .newCells | .setFormula | .renameCells => true
-  | _ => false
 
 /-- the effect of an edit of the static space `b` on the table -/
 def applyEdit (t : Table) (k : EditKind) (b : SId) : Table :=
@@ -334,14 +327,14 @@ def applyEdit (t : Table) (k : EditKind) (b : SId) : Table :=
   | .renameCells => nsChange (clearSubsRootItems t b) b
   | .delCells | .newChild | .delChild => nsChange t b
   | .newRef | .delRef | .changeRef => dynRefsChange (nsChange t b) b
-  | .setParamFormula => clearItems t ⟨b, []⟩
+  | .setParamFormula => clearSubsRootItems (clearItems t ⟨b, []⟩) b   -- `DynamicBase.set_formula` / `del_formula`
   | .modelRef => { t with live := [] }
 
 /-- `del_defined_space(space)`: every space of the deleted tree is removed from its parent's
 `named_spaces` (`on_del_space`), which changes the parent's namespace – of the parent of the
 deleted space, and of every deleted space that has a child space – and is then deleted
-(`BaseSpaceImpl.on_delete`), which deletes its own ItemSpaces (`del_all_itemspaces`).  Dynamic
-spaces that were built from a deleted space under another parent are not touched. -/
+(`DynamicBase.on_delete`): `clear_subs_rootitems()` discards the ItemSpaces in which dynamic
+spaces built from it elsewhere live, `BaseSpaceImpl.on_delete` its own ItemSpaces. -/
 def delSpace (defs : Defs) (t : Table) (d : SDef) : Defs × Table :=
   let sub := defs.filter (fun x => d.path.isPrefixOf x.path)
   let losing := sub.filter (fun x => sub.any (fun y => y.path != x.path && y.path.dropLast = x.path))
@@ -349,7 +342,8 @@ def delSpace (defs : Defs) (t : Table) (d : SDef) : Defs × Table :=
     | some par => nsChange t par.id
     | none => t
   let t2 := losing.foldl (fun t x => nsChange t x.id) t1
-  (defs.filter (fun x => !d.path.isPrefixOf x.path), sub.foldl (fun t x => clearItems t ⟨x.id, []⟩) t2)
+  (defs.filter (fun x => !d.path.isPrefixOf x.path),
+   sub.foldl (fun t x => clearItems (clearSubsRootItems t x.id) ⟨x.id, []⟩) t2)
 
 /-! ## 3b. Histories -/
 
